@@ -136,6 +136,72 @@ func (w *World) ConstGlobals() map[*ssa.Global]*ssa.Const {
 	return w.constGlobals
 }
 
+// BigIntGlobals: package-level variables of type *big.Int that init sets once to big.NewInt(<constant>) and that no
+// other code of the module writes or takes the address of (dsl.MinInt8 ... dsl.MaxInt64, dsl.Zero). A load from one
+// reads a non-nil number with that mathematical value (math/big.NewInt, and the module never mutates a big.Int: the
+// assumption the big.Int stubs already state).
+func (w *World) BigIntGlobals() map[*ssa.Global]string {
+	if w.bigIntGlobals != nil {
+		return w.bigIntGlobals
+	}
+	cand := map[*ssa.Global]string{}
+	bad := map[*ssa.Global]bool{}
+	for _, f := range w.AllFns {
+		if !w.InModule(f) {
+			continue
+		}
+		isInit := f.Name() == "init" && f.Parent() == nil
+		for _, b := range f.Blocks {
+			for _, ins := range b.Instrs {
+				for _, op := range ins.Operands(nil) {
+					g, ok := (*op).(*ssa.Global)
+					if !ok {
+						continue
+					}
+					if pt, ok := under(deref1(g.Type())).(*types.Pointer); !ok || typeKeyOf(pt.Elem()) != "math/big.Int" {
+						continue
+					}
+					switch x := ins.(type) {
+					case *ssa.UnOp:
+						// load
+					case *ssa.Store:
+						if x.Addr == ssa.Value(g) && isInit {
+							if call, ok := x.Val.(*ssa.Call); ok {
+								if cal := call.Call.StaticCallee(); cal != nil && cal.Pkg != nil && cal.Pkg.Pkg.Path() == "math/big" && cal.Name() == "NewInt" && len(call.Call.Args) == 1 {
+									if c, ok := call.Call.Args[0].(*ssa.Const); ok && c.Value != nil && c.Value.Kind() == constant.Int {
+										if _, dup := cand[g]; dup {
+											bad[g] = true
+										}
+										cand[g] = c.Value.ExactString()
+										continue
+									}
+								}
+							}
+						}
+						bad[g] = true
+					default:
+						bad[g] = true
+					}
+				}
+			}
+		}
+	}
+	w.bigIntGlobals = map[*ssa.Global]string{}
+	for g, c := range cand {
+		if !bad[g] {
+			w.bigIntGlobals[g] = c
+		}
+	}
+	return w.bigIntGlobals
+}
+
+func typeKeyOf(t types.Type) string {
+	if n, ok := types.Unalias(t).(*types.Named); ok && n.Obj().Pkg() != nil {
+		return n.Obj().Pkg().Path() + "." + n.Obj().Name()
+	}
+	return ""
+}
+
 // ConstStringSets: package-level variables of a map type with string keys that init fills from a composite literal
 // and that the module afterwards only reads (lookups, len, range): the set of keys is the literal's. E.g. the
 // reserved-word tables of the generators.
